@@ -232,7 +232,7 @@ func ExtEvent(r *Rand, k val.Kind, n int, bad, special bool) val.Event {
 	if n < 0 && r.P(1, 24) {
 		// element counts at the boundaries of the length encodings (1-byte
 		// signed / unsigned, 2-byte), rarely the 16-bit ones
-		n = Pick(r, []int{23, 24, 25, 127, 128, 129, 200, 255, 256, 257})
+		n = Pick(r, []int{23, 24, 25, 127, 128, 129, 200, 255, 256, 257, 78, 93, 125, 35, 36, 91, 123, 334})
 		if r.P(1, 12) {
 			n = Pick(r, []int{32767, 32768, 65535, 65536})
 		}
